@@ -399,12 +399,14 @@ bad_objno:
       return ReportBadLine(buf);
       }
     x = strtod(s = buf+6, &se);
-    if (se <= s)
-      goto bad_objno;
+    if (se <= s || !(x > -2147483649.0 && x < 2147483648.0))
+      goto bad_objno;       // (int)x is undefined outside int
     objno = (int)x;
     x = strtod(s = se, &se);
     if (se <= s)
       goto f_done;
+    if (!(x > -2147483649.0 && x < 2147483648.0))
+      goto bad_objno;
     Objno[1] = (Long)x;
 
     /* Submit objno and solve_code to Handler. */
